@@ -307,3 +307,104 @@ def _real_include_bytes(real, contents, ex, cwd, idirs, text, variant):
     finally:
         os.chdir(old)
         shutil.rmtree(root, ignore_errors=True)
+
+
+def include_bytes_multi_task():
+    """the same relative name resolved from two including files in different directories, and from
+    two projects assembled one after the other in one process (symbolic existence bits, working
+    directory): each include_bytes embeds the file next to ITS including file"""
+    res = TaskResult('include_bytes:multi')
+    files_text = {'/proj/src/main.asm': 'db 1\ninclude_bytes data.bin\ninclude sub/part.asm\ndb 2',
+                  '/proj/src/sub/part.asm': 'include_bytes data.bin\ndb 3',
+                  '/projB/main.asm': 'db 9\ninclude_bytes data.bin'}
+    blobs = {'/proj/src/data.bin': b'MAIN', '/proj/src/sub/data.bin': b'SUB-PART', '/projB/data.bin': b'B!'}
+    prof = common.FuncProfile()
+    real = asmshim.load_asm_pristine()
+    x = core.Explorer()
+    asm = asmshim.load_asm_shimmed()
+
+    def expect(ex):
+        e1 = ('ok', b'\x01MAIN' + b'SUB-PART' + b'\x03\x02') if ex['/proj/src/data.bin'] and ex['/proj/src/sub/data.bin'] else ('exc',)
+        e2 = ('ok', b'\x09B!') if ex['/projB/data.bin'] else ('exc',)
+        return e1, e2
+
+    def fn(p):
+        v = vfsmod.VFS('/work')
+        for d in ('/work', '/proj/src/sub', '/projB'):
+            v.add_dir(d)
+        for pth, t in files_text.items():
+            v.add_text(pth, t)
+        ex = {}
+        for pth, data in blobs.items():
+            ex[pth] = p.bool('exists_' + pth.replace('/', '_'))
+            v.add_bytes(pth, data, exists=ex[pth])
+        sel = p.int('cwd', lo=0, hi=2)
+        for i, d in enumerate(['/work', '/proj/src', '/projB']):
+            if sel == i:
+                v.cwd = d
+        v.install(asm)
+        Markers.table = {}
+        p.notes.update(ex=ex, cwd=v.cwd)
+        outs = []
+        for main in ('/proj/src/main.asm', '/projB/main.asm'):
+            try:
+                with prof:
+                    outs.append(('ok', asm.assemble(main)))
+            except Exception as e:
+                outs.append(('exc', type(e).__name__))
+        return outs
+
+    for p, kind, val in x.run(fn):
+        if kind != 'ok':
+            res.inconc('include_bytes multi: %s %r' % (kind, val))
+            continue
+        model = p.witness()
+        ex = {k: core.concrete(v, model) for k, v in p.notes['ex'].items()}
+        got = _real_multi(real, files_text, blobs, ex, p.notes['cwd'])
+        symc = [(o[0], concretize(o[1], model)) if o[0] == 'ok' else ('exc',) for o in val]
+        if [g[:1] + g[1:2] if g[0] == 'ok' else ('exc',) for g in got] != symc:
+            res.inconc('include_bytes multi: witness replay mismatch %r vs %r' % (symc, got))
+            continue
+        res['validated'] += 1
+        want = list(expect(ex))
+        ok = symc == [w if w[0] == 'ok' else ('exc',) for w in want]
+        if len(res['samples']) < 1:
+            res['samples'].append(dict(exists=ex, cwd=p.notes['cwd'], outcome=[(s[0], s[1].hex() if s[0] == 'ok' else '') for s in symc]))
+        if not ok:
+            path = common.write_replay('C10', 'include_bytes_multi', dict(kind='include_bytes', property='C10', setting=dict(exists=ex, cwd=p.notes['cwd']),
+                                                                          files=files_text, what='expected %r, got %r' % (want, symc)))
+            res['violations'].append(dict(harness='include_bytes', kind='wrong-file', setting=dict(exists=ex, cwd=p.notes['cwd']),
+                                          what='expected %r, got %r' % (want, symc), replay=path))
+        res.oblig(ok)
+    res.absorb_stats(x.stats)
+    res['functions'] = prof.names()
+    return res
+
+
+def _real_multi(real, files_text, blobs, ex, cwd):
+    import os
+    import shutil
+    import tempfile
+    root = tempfile.mkdtemp(prefix='bbverif_')
+    old = os.getcwd()
+    try:
+        for d in ('/work', '/proj/src/sub', '/projB'):
+            os.makedirs(root + d, exist_ok=True)
+        for pth, t in files_text.items():
+            with open(root + pth, 'w') as f:
+                f.write(t)
+        for pth, data in blobs.items():
+            if ex[pth]:
+                with open(root + pth, 'wb') as f:
+                    f.write(data)
+        os.chdir(root + cwd)
+        outs = []
+        for main in ('/proj/src/main.asm', '/projB/main.asm'):
+            try:
+                outs.append(('ok', bytes(real.assemble(root + main))))
+            except Exception as e:
+                outs.append(('exc', type(e).__name__))
+        return outs
+    finally:
+        os.chdir(old)
+        shutil.rmtree(root, ignore_errors=True)
